@@ -46,6 +46,7 @@ CONSTANTS Cases,           \* set of cases explored by the model
           DevDangEnd,      \* deviation: a dangling interaction is also expected in windows that stick out of the chain end
           DevNoAtomResname,\* deviation (independent seed C02-2): the residue name is not compared when the atoms of a link are looked up
           DevOrderedPairs, \* deviation (independent seed C10-2): joined residue pairs are collected and looked up as ORDERED pairs
+          DevGateOnce,     \* deviation (independent seed2-C10-1): the gate skips molecules whose (always empty) graph name was already seen
           DevDegree        \* deviation (C10): degree filter of find_connecting_edges compares the wrong way (m12)
 
 VARIABLES case, st
@@ -252,6 +253,18 @@ Reach(S, E, k) == IF k = 0 THEN S ELSE Reach(S \cup {y \in UNION E : \E e \in E 
 ResConnected(c, E, rm) == LET live == {r \in Rs(c) : AtomsOf(c, r) \ rm # {}}
                               RE == { {at[1] : at \in e} : e \in {f \in E : Cardinality({at[1] : at \in f}) = 2} }
                           IN live = {} \/ (LET r0 == CHOOSE r \in live : TRUE IN Reach({r0}, RE, c.n) \cap live = live)
+
+(* ---- C10, the gate of gen_coords: quantified over EVERY molecule of the topology *)
+\* conn = Seq(BOOLEAN): for each molecule of the expanded [ molecules ] list, is its residue graph connected
+GateRefuses(conn) == \E i \in DOMAIN conn : ~conn[i]
+\* _check_molecules: one pass over the molecule list, IOError at the first disconnected one.  With DevGateOnce the loop keeps a set
+\* of names already checked - the name it reads is networkx' Graph.name, "" for every molecule - and skips the rest
+RECURSIVE GateLoop(_, _, _)
+GateLoop(conn, i, checked) == IF i > Len(conn) THEN FALSE
+                              ELSE IF DevGateOnce /\ "" \in checked THEN GateLoop(conn, i + 1, checked)
+                              ELSE IF ~conn[i] THEN TRUE
+                              ELSE GateLoop(conn, i + 1, checked \cup {""})
+IGateRefuses(conn) == GateLoop(conn, 1, {})
 
 (* ------------------------------------------------------------------ *)
 (* dangling interactions of a monomer .itp (polyply_parser.py)         *)
